@@ -223,10 +223,19 @@ def _bare_body(case, res):
   return body
 
 
+def _bare_lines(case):
+  """cases with 'lines': the source lines of the mixin's two methods are scheduling points too (what happens
+  before the lock is taken is then interleaved as CPython would)"""
+  if not case.get('lines'):
+    return None
+  from openhtf import util
+  return sched.codes_of(util.SubscribableStateMixin.asdict_with_event, util.SubscribableStateMixin.notify_update)
+
+
 def _run_bare(case, chooser=None):
   sched.install_subscribe()
   res = {}
-  box, s = sched.run(chooser or _chooser(case), _bare_body(case, res), max_steps=5000)
+  box, s = sched.run(chooser or _chooser(case), _bare_body(case, res), max_steps=8000, trace_lines=_bare_lines(case))
   obj = res.get('obj')
   toks, idx, ncalls = _abstract(s.events, obj._lock, obj._update_events, set('w%d' % i for i in range(case['nW'])))
   # per event index: snapshot + flag (handles are appended in return order; map through the event identity)
@@ -760,7 +769,8 @@ def _dfs_cases(cfg, bound, limit):
   sched.install_subscribe()
   out = []
   res = {}
-  for box, s, choices in sched.explore(_bare_body(cfg, res), preemption_bound=bound, limit=limit, max_steps=5000):
+  for box, s, choices in sched.explore(_bare_body(cfg, res), preemption_bound=bound, limit=limit, max_steps=8000,
+                                       trace_lines=_bare_lines(cfg)):
     out.append(dict(cfg, choices=choices))
   return out
 
@@ -775,6 +785,7 @@ def gen_cases(rng, tier):
   cases += _dfs_cases(dict(base, nW=2, nU=1, wmode='once'), 2, 800 if quick else 6000)
   cases += _dfs_cases(dict(base, nW=1, nU=2, wmode='once'), 2, 800 if quick else 6000)
   cases += _dfs_cases(dict(base, nW=1, nU=1, wmode='once', iters=2, muts=2), 2, 600 if quick else 6000)
+  cases += _dfs_cases(dict(base, nW=2, nU=1, wmode='once', lines=True), 2, 1200 if quick else 10000)
   if not quick:
     cases += _dfs_cases(dict(base, nW=2, nU=2, wmode='loop'), 2, 8000)
     cases += _dfs_cases(dict(base, nW=3, nU=1, wmode='once'), 3, 8000)
@@ -782,7 +793,7 @@ def gen_cases(rng, tier):
     r = rng.derive(i)
     cases.append({'kind': 'bare', 'nW': r.choice([1, 2, 3]), 'nU': r.choice([1, 2]), 'iters': r.choice([1, 2]),
                   'muts': r.choice([1, 2, 3]), 'wmode': r.choice(['once', 'loop']), 'rseed': r.getrandbits(32),
-                  'switch': r.choice([0.2, 0.5, 0.8])})
+                  'switch': r.choice([0.2, 0.5, 0.8]), 'lines': i % 3 == 0})
   # whole runs
   P = lambda i, raw='cont', **kw: dict({'t': 'P', 'id': i, 'opts': {}, 'beh': [{'raw': raw}]}, **kw)
   tests = [
